@@ -100,13 +100,12 @@ def isTruncRhs (f rhs : String) : Bool :=
 def negatedField (rhs : String) : Option String :=
   if rhs.startsWith "!p." then some (rhs.drop 3).toString else none
 
-/-- a right-hand side the model understands: `&p.X` (a pointer into the object itself), `!p.X`
-    for a configuration field X, or a constant of the table -/
+/-- a right-hand side the model understands: `!p.X` for a configuration field X, `&p.X` (a
+    pointer into the object itself), or a constant of the table -/
 def rhsKnown (e : Expect) (rhs : String) : Bool :=
-  rhs.startsWith "&p." ||
-  (match negatedField rhs with
-   | some g => e.classOf g == some .config
-   | none => (e.consts.lookup rhs).isSome)
+  match negatedField rhs with
+  | some g => e.classOf g == some .config
+  | none => rhs.startsWith "&p." || (e.consts.lookup rhs).isSome
 
 /-- the per-field obligation -/
 def fieldOk (t : StructTable) (e : Expect) (f : String) : Bool :=
@@ -413,5 +412,12 @@ def A2conv (tr : List Ev) : Prop := checkA2conv tr = true
 
 /-- the last statement event, if any, saw a newline token: the program's last line is terminated -/
 def EndsNewl (tr : List Ev) : Prop := lastTokNewl none tr ≠ some false
+
+instance (tr : List Ev) : Decidable (NoErr tr) := inferInstanceAs (Decidable (_ = true))
+instance (tr : List Ev) : Decidable (A0 tr) := inferInstanceAs (Decidable (_ = true))
+instance (tr : List Ev) : Decidable (A1 tr) := inferInstanceAs (Decidable (_ = true))
+instance (tr : List Ev) : Decidable (A2 tr) := inferInstanceAs (Decidable (_ = true))
+instance (tr : List Ev) : Decidable (A2conv tr) := inferInstanceAs (Decidable (_ = true))
+instance (tr : List Ev) : Decidable (EndsNewl tr) := inferInstanceAs (Decidable (_ ≠ _))
 
 end ShVerif.C08
